@@ -45,7 +45,10 @@ impl Decoder for WithLengthBytesCodec {
         } else {
             let mut bytes = src.as_ref();
             let len = bytes.get_u64() as usize;
-            if src.remaining() >= LEN_SIZE + len {
+            let required = len.checked_add(LEN_SIZE).ok_or_else(|| {
+                std::io::Error::new(std::io::ErrorKind::InvalidData, "Invalid frame length.")
+            })?;
+            if src.remaining() >= required {
                 src.advance(LEN_SIZE);
                 Ok(Some(src.split_to(len)))
             } else {
